@@ -19,11 +19,11 @@ CHECKS = {
 
  'C02': dict(
     rule="generated (a,b) pairs for fixed*fixed (independent, product-targeted at +-2^63 / +-MAXF*2^16, complementary bit lengths) and (a,n) for every integral type in both operand orders and *=; evaluated on every build configuration; non-trivial = |raw product| >= 2^62 (fixed*fixed) or product out of range / >= 2^56 (scalar)",
-    clauses=[rc('C02.mulff', 8000000, 240000000), rc('C02.mulint', 8000000, 240000000), sweep('C02.grid')],
+    clauses=[rc('C02.mulff', 8000000, 240000000), rc('C02.mulint', 8000000, 240000000), rc('C02.const', 4000000, 160000000, kprog=True), sweep('C02.grid')],
     floors={'C02.mulff': {'P-not-in-int64': 0.20, 'P-fits-int64-and>=2^56': 0.10}, 'C02.mulint': {'product-outside-range': 0.10}}),
  'C03': dict(
     rule="generated (a,b) pairs for fixed/fixed (zero and tiny divisors, dividends -k*2^47, the 2^47 limit, quotient-first) and (a,n) for every integral divisor type; non-trivial = |a| >= 2^46, |b| <= 2 raw, |quotient| >= 2^46, or scalar n in {0,+-1} / |n| >= 2^31; a call that does not return is a violation",
-    clauses=[rc('C03.divff', 8000000, 240000000), rc('C03.divint', 8000000, 240000000), sweep('C03.grid')],
+    clauses=[rc('C03.divff', 8000000, 240000000), rc('C03.divint', 8000000, 240000000), rc('C03.const', 4000000, 160000000, kprog=True), sweep('C03.grid')],
     floors={'C03.divff': {'zero-divisor': 0.005, '|a|>=2^47': 0.15}, 'C03.divint': {'zero-divisor': 0.02}}),
  'C04': dict(
     rule="every integral type: generated n (type classes and limits) through five conversion spellings, generated finite x through three fixed->T spellings, and an enumeration of all int8/uint8/int16/uint16 values (int32/uint32 strided quick, complete thorough); non-trivial = n out of range or within 2^16 of +-(2^31-1), floor(x) not representable in T or at a limit, negative fractions",
